@@ -44,6 +44,9 @@ def _expr(rng, vars_):
         return f"{v}[{rng.choice(['0', repr(rng.choice(NAMES))])}]"
     if r < 0.7:
         return "source()"
+    if r < 0.8:
+        # modulo / string formatting, with and without blanks around the operator
+        return rng.choice([f"{v}%{rng.choice(vars_) if vars_ else 'k'}", f"{v} % 3", f"'slot%d' % {v}", f"'%s_{rng.choice(NAMES)}'%{v}"])
     return v
 
 
